@@ -1,0 +1,9 @@
+//go:build verif
+
+// Contracts for package jsonld, checked by /verif/govc (comment-only; not part of any normal build).
+
+package jsonld
+
+//@ func (*jsonld).Configure
+//@   prop C20
+//@   call NewContextLoader #1 requires arg(0) == !serverConfig.Strictmode
